@@ -50,7 +50,9 @@ CWDS = ["parent", "elsewhere", "grandparent"]
 MUST_SUCCEED = {("iter-args", "parent"), ("iter-args", "elsewhere"), ("iter-args-rel", "parent"), ("map-str-args", "parent"), ("abs-abs", "parent"), ("rel-rel", "parent"), ("rel-name", "parent"), ("rel-none", "parent"), ("abs-abs", "elsewhere"), ("str-args", "parent"),
                 # the first example of the read_files docstring: targets given relative to a working directory ABOVE the parent of
                 # the root ("workspace/project/types/animals/felines/Tabby.1.0.dsdl") with the roots as bare names or as relative paths
-                ("abs-abs", "grandparent"), ("rel-rel", "grandparent"), ("rel-name", "grandparent")}
+                ("abs-abs", "grandparent"), ("rel-rel", "grandparent"), ("rel-name", "grandparent"),
+                # the same targets with the root designated by its ABSOLUTE path: the mapping does not depend on how the root is designated
+                ("rel-abs", "parent"), ("rel-abs", "grandparent"), ("rel-abs", "elsewhere")}
 
 
 def plan(tier):
@@ -125,6 +127,10 @@ def cases(shard, tier):
         for order in itertools.permutations(["p", "q", "r"]):
             for spelling in ("abs", "rel"):
                 yield {"kind": "twin-roots", "order": list(order), "spelling": spelling}
+                # a file that exists under only ONE of the same-named roots, designated relative to the roots' parents, from
+                # every working directory (the parent of its own root, the parents of the roots that lack it, elsewhere)
+                for cwd in ("cwd", "p", "q", "r", "."):
+                    yield {"kind": "twin-roots", "order": list(order), "spelling": spelling, "only-in": "r", "cwd": cwd}
         return
     if shard["kind"] == "layout":
         for short, ver, port in itertools.product(SHORTS, VERSIONS, PORTS):
@@ -385,9 +391,25 @@ def check_twin_roots(case, R: engine.Acc):
     old = os.getcwd()
     try:
         ws.write_tree(base, {"p/rns/sub/T.1.0.dsdl": "uint8 p\n@sealed\n", "q/rns/sub/T.1.0.dsdl": "uint16 q\n@sealed\n", "r/rns/other/U.1.0.dsdl": "@sealed\n", "cwd/keep": ""})
-        os.chdir(base / "cwd")
-        mk = (lambda d: base / d / "rns") if case["spelling"] == "abs" else (lambda d: Path("..") / d / "rns")
+        os.chdir(base / case.get("cwd", "cwd"))
+        up = Path(".") if case.get("cwd") == "." else Path("..")
+        mk = (lambda d: base / d / "rns") if case["spelling"] == "abs" else (lambda d: up / d / "rns")
         roots = [mk(d) for d in case["order"]]
+        if "only-in" in case:
+            exp = [{"full_name": "rns.other.U", "version": [1, 0], "port": None, "source_file_path": "r/rns/other/U.1.0.dsdl", "source_file_path_to_root": "r/rns"}]
+            R.case(case, nontrivial=True, sample=(case["order"] == ["q", "p", "r"] and case["cwd"] == "q"))
+            try:
+                with engine.deadline(20):
+                    res, _t = pydsdl.read_files([Path("rns/other/U.1.0.dsdl")], roots, [])
+                got = [identity(t, base) for t in res]
+            except pydsdl.InvalidDefinitionError as ex:
+                got = ["rejected", type(ex).__name__]
+            if got != exp:
+                R.outcome("identity-wrong")
+                R.violation("identity-differs:twin-roots:only-in-one", "a relative target that exists under exactly one of several same-named roots is that file, whatever the working directory", case, observed=got, expected=exp)
+            else:
+                R.outcome("twin-roots-ok")
+            return
         first = next(d for d in case["order"] if d in ("p", "q"))
         exp = [{"full_name": "rns.sub.T", "version": [1, 0], "port": None, "source_file_path": "%s/rns/sub/T.1.0.dsdl" % first, "source_file_path_to_root": "%s/rns" % first}]
         R.case(case, nontrivial=True, sample=(case["order"] == ["q", "p", "r"]))
